@@ -1,4 +1,5 @@
 import VermouthProofs.C13_Disp
+import VermouthProofs.C13_Comp
 /-!
 # C13 — force-field, topology and mapping files load to exactly what they declare
 
@@ -88,3 +89,137 @@ example : (ffRun P0 () W1).map (fun s => s.links.map (·.1)) = some [0, 2, 6] :=
 example : (ffRun P0 () W2).map (fun s => s.links.map (·.1)) = some [0, 4] := repaired_dispatcher_W2
 example : TopOk P0.T := by unfold TopOk; decide
 end C13
+
+/-! ## 2.-6. Components (namespace `C13.Props`; proofs in `VermouthProofs/C13_Comp.lean`) -/
+namespace C13.Props
+open C13
+
+/-- **Unbalanced braces are rejected**: a line whose numbers of `{` and `}` differ is never tokenized. -/
+theorem tokenize_rejects (cs : List Char) (h : cs.count '{' ≠ cs.count '}') : tokenize cs = none :=
+  C13.tokenize_rejects_unbalanced h
+
+/-- an accepted line is cut into non-empty tokens, each with balanced braces, and nothing but
+separators is dropped -/
+theorem tokenize_balanced (cs : List Char) (toks : List (List Char)) (h : tokenize cs = some toks) :
+    cs.count '{' = cs.count '}' ∧ (∀ t ∈ toks, t.count '{' = t.count '}' ∧ t ≠ []) ∧
+    toks.flatten.filter (fun c => !isSep c) = cs.filter (fun c => !isSep c) :=
+  ⟨C13.tokenize_balanced h,
+   fun t ht => ⟨C13.tokenize_tokens_balanced h t ht, C13.tokenize_nonempty h t ht⟩,
+   C13.tokenize_no_loss h⟩
+
+/-- brace-free words separated by single blanks are returned as they are -/
+theorem tokenize_words (ws : List (List Char))
+    (h : ∀ w ∈ ws, w ≠ [] ∧ ∀ c ∈ w, isSep c = false ∧ c ≠ '{' ∧ c ≠ '}') :
+    tokenize (List.intercalate [' '] ws) = some ws := C13.tokenize_words ws h
+
+example : tokenize "BB {\"a\": 1}+CC -- 1".toList
+    = some ["BB".toList, "{\"a\": 1}".toList, "+CC".toList, "--".toList, "1".toList] := by decide
+example : tokenize "a {b".toList = none := by decide
+
+/-- **Order prefixes and explicit order attributes mean the same thing**: `n` signs `+`/`-` in front of
+a name are the attribute `order = ±n` (for every `n`, including 0), and `n ≥ 1` characters `>`, `<`
+or `*` are the attribute `order = "that string"`: same node key, same attributes. -/
+theorem prefix_order_equiv (c : Char) (n : Nat) (base : List Char) (a : Attrs)
+    (hb : GoodBase base) (ha : Attrs.get a "order" = none) :
+    ((c = '+' ∨ c = '-') →
+      treatAtomPrefix (List.replicate n c ++ base) a
+        = treatAtomPrefix base (a ++ [("order", JVal.int (if c = '+' then (n : Int) else -(n : Int)))])) ∧
+    ((c = '>' ∨ c = '<' ∨ c = '*') → 1 ≤ n →
+      treatAtomPrefix (List.replicate n c ++ base) a
+        = treatAtomPrefix base (a ++ [("order", JVal.str (String.ofList (List.replicate n c)))])) :=
+  ⟨fun hc => C13.prefix_order_equiv_sign c n base a hc hb ha,
+   fun hc hn => C13.prefix_order_equiv_sym c n base a hc hn hb ha⟩
+
+example : GoodBase "BB".toList := ⟨'B', ['B'], rfl, by decide⟩
+example : treatAtomPrefix "++BB".toList [] = treatAtomPrefix "BB".toList [("order", .int 2)] := by decide
+example : treatAtomPrefix "++BB".toList []
+    = some ("++BB".toList, [("order", .int 2), ("atomname", .str "BB")]) := by decide
+
+/-- **A prefix that contradicts the explicit order is rejected.** -/
+theorem prefix_order_conflict_rejected (c : Char) (pre base : List Char) (a : Attrs) (v : JVal)
+    (hpre : pre ≠ []) (hall : ∀ x ∈ pre, x = c) (hpc : isPrefixChar c = true) (hb : GoodBase base)
+    (ha : Attrs.get a "order" = some v) (hv : v ≠ JVal.null) (hne : v ≠ (orderFromPrefix pre).2) :
+    treatAtomPrefix (pre ++ base) a = none :=
+  C13.prefix_order_conflict_rejected c pre base a v hpre hall hpc hb ha hv hne
+
+example : treatAtomPrefix "+BB".toList [("order", .int 2)] = none := by decide
+
+/-- every normalised atom carries an `order` and an `atomname` -/
+theorem prefix_result_has_order_and_name (ref : List Char) (a : Attrs) (key : List Char) (a' : Attrs)
+    (h : treatAtomPrefix ref a = some (key, a')) :
+    (Attrs.get a' "order").isSome ∧ (Attrs.get a' "atomname").isSome := C13.prefix_result_order h
+
+/-- **Fixed arity is enforced**: an accepted line of an `n`-atom interaction has exactly `n` atoms; with
+the `--` delimiter after exactly `n` plain atoms they are those atoms and the rest are parameters;
+fewer than `n` atoms (with or without delimiter) is rejected. -/
+theorem arity_enforced (n : Nat) :
+    (∀ toks atoms rest, baseAtoms (some n) toks = some (atoms, rest) → atoms.length = n) ∧
+    (∀ a p : List String, (∀ t ∈ a, Plain t) → "--" ∉ p → a.length = n →
+        baseAtoms (some n) (a ++ "--" :: p) = some (a.map (fun t => (t, none)), p)) ∧
+    (∀ a p : List String, (∀ t ∈ a, Plain t) → a.length < n → baseAtoms (some n) (a ++ "--" :: p) = none) ∧
+    (∀ a : List String, (∀ t ∈ a, Plain t) → a.length < n → baseAtoms (some n) a = none) :=
+  ⟨fun _ _ _ h => C13.arity_enforced h,
+   fun a p ha hp hl => C13.arity_delimiter_exact n a p ha hp hl,
+   fun a p ha hl => C13.arity_delimiter_short n a p ha hl,
+   fun a ha hl => C13.arity_too_few n a ha hl⟩
+
+/-- sections without a fixed arity take every token before `--` as an atom -/
+theorem arity_free (a p : List String) (ha : ∀ t ∈ a, Plain t) (hp : "--" ∉ p) :
+    baseAtoms none (a ++ "--" :: p) = some (a.map (fun t => (t, none)), p) := C13.arity_free a p ha hp
+
+/-- what the code does NOT reject (reported as F-C13-7): more than `n` atoms before `--` -/
+theorem arity_excess_before_delimiter_accepted :
+    baseAtoms (some 2) ["A", "B", "C", "--", "1"] = some ([("A", none), ("B", none)], ["C", "--", "1"]) :=
+  C13.arity_delimiter_excess_accepted
+
+/-- **Mapping weights**: weight(to, from) = multiplicity of `to` on the line of `from` / number of
+entries without `!` on that line; a `!` entry has weight 0; any other pair has no weight. -/
+theorem weights_formula (m : List (String × List String)) (w : List (String × String × Frac))
+    (f t : String) (tos : List String)
+    (hw : computeWeights m = some w) (hnd : (m.map (·.1)).Nodup) (hm : (f, tos) ∈ m) :
+    (t ∈ nonNull tos → lookupWeight w t f = some ⟨(nonNull tos).count t, (nonNull tos).length⟩) ∧
+    (t ∈ nullTargets tos → lookupWeight w t f = some ⟨0, 1⟩) ∧
+    (t ∉ nonNull tos → t ∉ nullTargets tos → lookupWeight w t f = none) :=
+  C13.weights_formula hw hnd hm
+
+/-- the same target with and without `!` on one line is an error -/
+theorem weights_conflict_rejected (m : List (String × List String)) (f t : String) (tos : List String)
+    (hm : (f, tos) ∈ m) (h1 : t ∈ nonNull tos) (h2 : t ∈ nullTargets tos) : computeWeights m = none :=
+  C13.weights_conflict_rejected hm h1 h2
+
+/-- the non-null weights of one source atom add up to 1 (numerators add up to the common denominator),
+and every denominator is positive -/
+theorem weights_normalised (m : List (String × List String)) (w : List (String × String × Frac))
+    (hw : computeWeights m = some w) (tos : List String) :
+    ((nonNull tos).eraseDups.map fun t => (nonNull tos).count t).sum = (nonNull tos).length ∧
+    ∀ e ∈ w, 0 < e.2.2.den :=
+  ⟨C13.weights_sum_one tos, C13.weights_den_pos hw⟩
+
+example : computeWeights [("A", ["X", "X", "Y", "!Z"])]
+    = some [("X", "A", ⟨2, 3⟩), ("Y", "A", ⟨1, 3⟩), ("Z", "A", ⟨0, 1⟩)] := by decide
+example : computeWeights [("A", ["X", "!X"])] = none := by decide
+
+/-- **Macros are substituted**: a `$name` delimited by one of `' ${}\n\t"'` or the end of the line is
+replaced by its value; an undefined name is an error; a line without `$` is unchanged; no `$` is left. -/
+theorem macro_subst (ms : List (String × String)) (name tail : List Char)
+    (hn : ∀ x ∈ name, isMacroEnd x = false)
+    (ht : tail = [] ∨ ∃ e r, tail = e :: r ∧ isMacroEnd e = true) :
+    (∀ v : String, name ++ tail ≠ [] → lookupMacro ms (String.ofList name) = some v → '$' ∉ v.toList →
+      ∀ (pre : List Char) (fuel : Nat), '$' ∉ pre → (pre ++ '$' :: name ++ tail).length < fuel →
+        substMacrosAux ms fuel (pre ++ '$' :: name ++ tail)
+          = (substMacrosAux ms (fuel - pre.length - 1) tail).map (fun r => pre ++ v.toList ++ r)) ∧
+    (lookupMacro ms (String.ofList name) = none →
+      ∀ (pre : List Char) (fuel : Nat), '$' ∉ pre → (pre ++ '$' :: name ++ tail).length < fuel →
+        substMacrosAux ms fuel (pre ++ '$' :: name ++ tail) = none) :=
+  ⟨fun v hne hl hv => C13.subst_step ms name tail v hn ht hne hl hv,
+   fun hl => C13.subst_undefined_rejected ms name tail hn ht hl⟩
+
+theorem macro_subst_plain_and_complete (ms : List (String × String)) :
+    (∀ (cs : List Char) (fuel : Nat), '$' ∉ cs → cs.length < fuel → substMacrosAux ms fuel cs = some cs) ∧
+    (∀ (fuel : Nat) (cs r : List Char), substMacrosAux ms fuel cs = some r → cs.length < fuel → '$' ∉ r) :=
+  ⟨C13.subst_plain ms, C13.subst_no_dollar ms⟩
+
+example : substMacros [("a", "b")] "x $a{1} $a" = some "x b{1} b" := by decide
+example : substMacros [] "x $a" = none := by decide
+
+end C13.Props
